@@ -291,6 +291,33 @@ func RunC18(env *Env, rep *Report) {
 			cases = append(cases, cs)
 		}
 	}
+	// complete programs with deep chunk structures under the robustness oracle
+	robust := func(base *Case) *Case {
+		out := *base
+		out.Name = "c18/program/" + base.Name
+		out.Shape = c18Shape{Sub: "program", Context: base.Name}
+		out.Variants = []Variant{{Name: "main", Opt: CompileOpts{Optimize: true, LM: true, Path: "in.pory"}}, {Name: "noopt", Opt: CompileOpts{}}, {Name: "lint", Opt: CompileOpts{Optimize: true, Lint: true}}}
+		tmpl := c18ParserCase("", nil, false, false)
+		out.Oracle = tmpl.Oracle
+		out.Setup = func(x *OracleCtx) { x.C.Fuel = 3_000_000; x.C.MaxDecide = 400 }
+		return &out
+	}
+	for _, ctx := range []string{"only", "first", "while"} {
+		for _, first := range []string{"ifbreak", "cmd", "iflabelcmd"} {
+			for n := 1; n <= 4; n++ {
+				sh := []swEntry{{Body: first}, {Default: true, Body: "cmd"}}
+				for i := 0; i < n; i++ {
+					sh = append(sh, swEntry{Body: "empty"})
+				}
+				cases = append(cases, robust(c03Case(sh, ctx)))
+			}
+		}
+	}
+	for _, sh := range c01ContextShapes() {
+		for _, e := range expandGotos(sh) {
+			cases = append(cases, robust(c01Case(e, ShString(e))))
+		}
+	}
 	// lint mode on its own (no switches, no fonts)
 	for _, p := range c18Prefixes {
 		cases = append(cases, c18ParserCase(p, []string{"F"}, true, false))
